@@ -3,6 +3,7 @@
 //	crstate replay <cfg.json> <behaviours.jsonl> [sweep [shard n]]
 //	crstate budget <cfg.json> <cases.jsonl>                          (decision table of BudgetTable.tla)
 //	crstate checkpoint <cfg.json> <behaviours.jsonl> [0 [shard n]]   (C23, CR part: see checkpoint.go)
+//	crstate fields <n> <seed>                                        (C23, CR part: generated checkpoints, see fields.go)
 //
 // Every behaviour TLC printed is replayed block by block on a real
 // crstate.Committee (instance A) that is fed and rolled back through its
@@ -41,6 +42,14 @@ func main() {
 		os.Exit(3)
 	}
 	defer stack.CleanupGlobals()
+	if os.Args[1] == "fields" {
+		// crstate fields <n> <seed>: generated checkpoints (fields.go)
+		n, _ := strconv.Atoi(os.Args[2])
+		seed, _ := strconv.ParseInt(os.Args[3], 10, 64)
+		fieldsMode(n, seed)
+		rep.Flush()
+		return
+	}
 	var cfg Cfg
 	raw, err := os.ReadFile(os.Args[2])
 	if err != nil || json.Unmarshal(raw, &cfg) != nil {
